@@ -38,22 +38,28 @@ def run(ck, prog):
     sk = {v["discr"]: v["name"] for v in prog.adts[SYNTAXKIND]["variants"]}
     kinds = None
     per_kind_ok = True
-    for c in [fb] + prog.closures_of(fb.path):
+    # exec, its closures and the private helpers of the module it delegates to
+    module = fb.path.rsplit("::", 1)[0] + "::"
+    members = [b for p, b in sorted(prog.bodies.items()) if p.startswith(module)]
+    n_ranges = 0
+    for c in members:
         for i, bb in enumerate(c.blocks):
             t = bb["term"]
             if t["k"] == "switch":
                 sc = paths.switch_cond(c, prog, i)
                 if sc.kind == "discr" and sc.data[1] == SYNTAXKIND and len(t["arms"]) >= 3:
-                    kinds = {sk.get(a[0]) for a in t["arms"]}
-                    # the arm computes range_excluding_trivia(&node) of the same node whose kind was tested
-                    ko = None
-                    d = c.single_def(sc.data[0]["l"]) if not sc.data[0]["p"] else None
-                    if d and d[0] == "call":
-                        ko = prov.origins(c, d[2]["args"][0])
-                    for _, tt in c.calls():
-                        if Body.callee(tt) == "ide::utils::range_excluding_trivia":
-                            ro = prov.origins(c, tt["args"][0])
-                            per_kind_ok = per_kind_ok and (ko is not None and ro == ko)
+                    kinds = (kinds or set()) | {sk.get(a[0]) for a in t["arms"]}
+        # the range is range_excluding_trivia(&node) of the same node whose kind is tested
+        kos = [prov.origins(c, tt["args"][0]) for _, tt in c.calls() if (Body.callee(tt) or "").endswith("SyntaxNode::<L>::kind")]
+        for _, tt in c.calls():
+            if Body.callee(tt) == "ide::utils::range_excluding_trivia":
+                n_ranges += 1
+                ro = prov.origins(c, tt["args"][0])
+                if kos:
+                    per_kind_ok = per_kind_ok and any(ro == ko for ko in kos)
+                else:
+                    per_kind_ok = per_kind_ok and bool(ro) and all(x[0] == "arg" for x in ro)
+    per_kind_ok = per_kind_ok and n_ranges >= 1
     ck.ob("R18.1", "kinds", kinds == FOLD_KINDS, "folding kinds = %s" % sorted(kinds or []),
           msg="folding kinds are %s, expected %s" % (sorted(kinds or []), sorted(FOLD_KINDS)))
     ck.ob("R18.1", "range-of-node", per_kind_ok, "range_excluding_trivia is applied to the matched node itself",
@@ -71,6 +77,33 @@ def run(ck, prog):
     variants = {v["discr"]: v["name"] for v in prog.adts[sym_adt[0]]["variants"]}
     produced = {}
     kinds_made = {}
+    dmod = sb.path.rsplit("::", 1)[0] + "::"
+
+    def helper_closure(start_callees):
+        """module-local helper functions reachable from the given callees (the arms may be extracted into helpers)"""
+        seen = set()
+        st = [c for c in start_callees if c and c.startswith(dmod) and c != sb.path]
+        while st:
+            c = st.pop()
+            if c in seen or prog.body(c) is None:
+                continue
+            seen.add(c)
+            for hb in [prog.body(c)] + prog.closures_of(c):
+                for _, t in hb.calls():
+                    cc = Body.callee(t) or ""
+                    if cc.startswith(dmod) and cc not in seen and cc != sb.path:
+                        st.append(cc)
+        return seen
+
+    def kinds_in(fn):
+        out = []
+        for hb in [prog.body(fn)] + prog.closures_of(fn):
+            for bb in hb.blocks:
+                for st_ in bb["s"]:
+                    rv = st_.get("rv") or {}
+                    if isinstance(rv.get("agg"), dict) and rv["agg"].get("adt", "").endswith("DocumentSymbolKind"):
+                        out.append(rv["agg"]["variant"])
+        return out
     for pth in paths.enum_paths(sb, prog, limit=20000):
         if pth.end != "return":
             continue
@@ -89,6 +122,8 @@ def run(ck, prog):
             produced.setdefault(chosen, set()).add(some)
             if some:
                 kinds_made.setdefault(chosen, set()).update(dk[-1:])
+                for h in helper_closure([Body.callee(e[2]) for e in pth.events if e[0] == "call"]):
+                    kinds_made[chosen].update(kinds_in(h)[:1] if False else kinds_in(h))
     want_some = {"Record", "Defset", "Multiclass"}
     for v in variants.values():
         got = produced.get(v, produced.get("<other>", set()))
@@ -101,6 +136,9 @@ def run(ck, prog):
     ck.ob("R18.2", "record-kinds", kinds_made.get("Record", set()) >= {"Class", "Def"},
           "records yield Class and Def entries", msg="record symbols no longer yield both Class and Def outline entries: %s" % kinds_made.get("Record"))
     calls = [Body.callee(t) or "" for _, t in sb.calls()]
+    for h in helper_closure(list(calls)):
+        for hb in [prog.body(h)] + prog.closures_of(h):
+            calls += [Body.callee(t) or "" for _, t in hb.calls()]
     ck.ob("R18.2", "children", any(c.endswith("Record::iter_template_arg") for c in calls) and any(c.endswith("Record::iter_field") for c in calls)
           and any("chain" in c for c in calls),
           "class children = template arguments chained with fields",
